@@ -474,7 +474,30 @@ def replay_edge(ctx, memo, e, hist, lookup, stats, do_cli=True, full=True):
     stats["variants"] += nvar
 
 
+def weak_hash_events(ctx):
+    """Run in the weak-hash interpreter (harness/weakhash.py): every verdict on bases that share elements, in one process in
+    which permutations collide in the memo tables all the time."""
+    rnd = util.rng(ctx, 1399)
+    events = []
+    pool = [rand_basis(rnd, 6) for _ in range(40)]
+    for i in range(120):
+        B = list(rnd.choice(pool))
+        if rnd.random() < 0.5:                                  # an element of another basis joins: memo entries are shared
+            B.append(rnd.choice(rnd.choice(pool)))
+        if rnd.random() < 0.3:
+            B.append(tuple(structured(rnd, rnd.choice([6, 7]))))
+        perms = [Perm(p) for p in B]
+        for f in FUNS:
+            st, got = util.call(REAL[f], list(perms))
+            if st == "raise" or not isinstance(got, (bool, int)):
+                ctx.violation({"kind": "event", "basis": [list(p) for p in B], "f": NAME[f]}, "NoException", "a verdict", got)
+            else:
+                events.append({"op": "Q", "basis": [list(p) for p in B], "f": f, "res": bool(got), "via": "weak-hash interpreter"})
+    return events
+
+
 def run(ctx):
+    weak = util.weak_hash_start(ctx, "c13", "weak_hash_events")
     quick = ctx.tier == "quick"
     rnd = util.rng(ctx, 13)
     memo = Memo(ctx)
@@ -701,6 +724,7 @@ def run(ctx):
     # ---- 6. code -> spec: one long history on larger random bases --------------------------------------------------
     head, tail = record_probes(ctx, memo, util.rng(ctx, 131313), quick, 7 if quick else 8, cold, fillers)
     events = head + record_trace(ctx, memo, rnd, 150 if quick else 1200, 60 if quick else 400, 7 if quick else 8) + tail
+    events += util.weak_hash_finish(ctx, weak, "c13")
     ctx.note("trace_events", dict(collections.Counter(e["op"] for e in events)))
     ctx.note("single_questions_via", dict(collections.Counter(e["via"].split(",")[0] for e in events if e["op"] == "Q")))
     v = util.validate_trace(ctx, "Trace_C13", events, timeout=3000)
